@@ -160,6 +160,10 @@ func (c chainBridge) InsertChain(momentums []*nom.DetailedMomentum) (int, error)
 		if err != nil {
 			return 0, err
 		}
+		if target == nil {
+			log.Error("can't link momentums to insert", "reason", "no momentum at the height of the first momentum's previous")
+			return 0, errors.Errorf("can't link momentums to insert. First momentum Prev is %v but there is no momentum at that height", head.Previous())
+		}
 		if target.Identifier() != head.Previous() {
 			log.Error("can't link momentums to insert", "first")
 			return 0, errors.Errorf("can't link momentums to insert. First momentum Prev is %v but he have %v", head.Previous(), target.Identifier())
